@@ -149,7 +149,11 @@ def results_doc(repo, fmt):
             # stability check, is not a statistic)
             printed = isinstance(e.ret, tuple) and contains(full_terms[0], lambda x: x == e.ret) \
                 and not contains(e.args[0], lambda x: x[0] == 'const' and isinstance(x[1], str) and len(x[1]) > 1)      # (a helper fed with text lines assembles the text)
-            if printed and not any(c.kind == 'call' and c.target.cls == 'Model' and c.target.name.startswith('_') and c.target.name not in not_stat for c, br in ctx):
+            # ... called from get_results itself or from a function that renders the whole text (not from inside another helper)
+            def renders_text(c):
+                return isinstance(getattr(c, 'ret', None), tuple) and contains(c.ret, lambda x: x[0] == 'const' and isinstance(x[1], str) and 'matching: ' in x[1])
+            nested = any(c.kind == 'call' and getattr(c.target, 'cls', None) == 'Model' and not renders_text(c) for c, br in ctx)
+            if printed and not nested:
                 args.append((e.target.name, e.args[0]))
     return f, full[0], args
 
